@@ -111,8 +111,13 @@ def build_connect(eng, params):
     else:
         p.willTopic = None
         p.willMessage = None
-        p.willQoS = 0
-        p.willRetain = False
+        if params.get('stray_will_args'):
+            # connect() accepts a will QoS / retain flag without a will: they must not reach the wire
+            p.willQoS = eng.int('willQoS', 0, 2)
+            p.willRetain = eng.bool('willRetain')
+        else:
+            p.willQoS = 0
+            p.willRetain = False
     p.username = s('username') if params.get('user') else None
     p.password = s('password') if params.get('password') else None
     return p
@@ -634,3 +639,79 @@ def h_payloadtype(eng, params):
 
 
 HARNESSES.update({'decode_ref': h_decode_ref, 'range16': h_range16, 'longstring': h_longstring, 'payloadtype': h_payloadtype})
+
+
+# ------------------------------------------------------------------------------ C02: bytes written during live sessions
+
+def h_live(eng, params):
+    """first transmission and retransmissions of every client packet kind, compared with the reference encoding"""
+    from fractions import Fraction
+    from .flow import Flow
+    from .world import blist as _bl
+    ver = params['ver']
+    kind = params['req']
+    flow = Flow(eng, 'pubsubs', ver=ver, keepalive=params.get('keepalive', 0))
+    w = flow.w
+    flow.open()
+    c = flow.c
+    flow.set_window(4)
+    v31 = (ver == 31)
+    expect = []      # reference encodings, in write order after CONNECT
+    n0 = len([e for e in w.events if e.kind == 'write'])
+    if kind in ('pub0', 'pub1', 'pub2', 'pubrel'):
+        qos = {'pub0': 0, 'pub1': 1, 'pub2': 2, 'pubrel': 2}[kind]
+        r = flow.publish(qos=qos)
+        mid = r.msgId
+        first = ref.enc_publish(mkstr(eng, r.topic), r.payload, qos, 0, as_int(r.retain), mid)
+        rep = ref.enc_publish(mkstr(eng, r.topic), r.payload, qos, 1, as_int(r.retain), mid)
+        expect.append(first)
+        if kind == 'pubrel':
+            flow.rx('PUBREC', msgId=mid)
+            expect.append(ref.enc_ack(ref.PUBREL, mid))
+            rep = ref.enc_ack(ref.PUBREL, mid, dup=v31)
+    elif kind == 'sub':
+        shape = params.get('shape', 'str')
+        r = flow.subscribe(shape, qos=eng.int('sqos', 0, 2) if shape != 'list' else None)
+        topics = [(mkstr(eng, t), q) for (t, q) in r.topics]
+        expect.append(ref.enc_subscribe(r.msgId, topics))
+        rep = ref.enc_subscribe(r.msgId, topics, dup=v31)
+    elif kind == 'unsub':
+        r = flow.unsubscribe(params.get('shape', 'str'))
+        topics = [mkstr(eng, t) for t in r.topics]
+        expect.append(ref.enc_unsubscribe(r.msgId, topics))
+        rep = ref.enc_unsubscribe(r.msgId, topics, dup=v31)
+    elif kind == 'inbound':
+        # acknowledgements of inbound traffic
+        iq = eng.int('iqos', 1, 2)
+        imid = eng.int('imid', 1, 65535)
+        flow.rx_raw('PUBLISH', ref.enc_publish(mkstr(eng, [0x69]), [1], iq, 0, 0, imid), {'qos': iq, 'msgId': imid})
+        if iq == 1:
+            expect.append(ref.enc_ack(ref.PUBACK, imid))
+        else:
+            expect.append(ref.enc_ack(ref.PUBREC, imid))
+            flow.rx_raw('PUBREL', ref.enc_ack(ref.PUBREL, imid), {'msgId': imid})
+            expect.append(ref.enc_ack(ref.PUBCOMP, imid))
+        rep = None
+    elif kind == 'ping':
+        expect.append(ref.enc_pingreq())
+        rep = None
+    elif kind == 'disconnect':
+        flow.disconnect()
+        expect.append(ref.enc_disconnect())
+        rep = None
+    if kind not in ('pub0', 'inbound', 'disconnect', 'ping'):
+        for i in range(params.get('retries', 2)):
+            flow.advance(1100 * (2 ** i))
+            expect.append(rep)
+    writes = [_bl(e.a) for e in w.events if e.kind == 'write'][n0:]
+    if kind == 'ping':
+        writes = [_bl(e.a) for e in w.events if e.kind == 'write'][1:2]     # the PINGREQ written when CONNACK arrives
+    eng.check(len(writes) == len(expect), 'live.count', '%s: %d packets written, %d expected' % (kind, len(writes), len(expect)))
+    for i, (wr, ex) in enumerate(zip(writes, expect)):
+        eng.check(bytes_eq(wr, ex), 'live.bytes', '%s: packet %d on the wire differs from the reference encoding' % (kind, i),
+                  sig='live.bytes:%s:%s' % (kind, 'first' if i == 0 else 'later'))
+        eng.count('live.first' if i == 0 else 'live.repeat')
+    return flow.finish()
+
+
+HARNESSES['live'] = h_live
